@@ -27,15 +27,19 @@ func nodeStartSequence() (string, error) {
 	if err != nil {
 		return "", err
 	}
+	// methods of *Node declared in node.go: a call `node.m()` of one of them is replaced by the calls its body makes, so
+	// that moving a part of the start-up into a helper method (or back) leaves the sequence unchanged
+	methods := map[string]*ast.FuncDecl{}
+	for _, d := range f.Decls {
+		if fd, ok := d.(*ast.FuncDecl); ok && fd.Recv != nil && fd.Body != nil {
+			methods[fd.Name.Name] = fd
+		}
+	}
 	var calls []string
 	found := false
-	for _, d := range f.Decls {
-		fd, ok := d.(*ast.FuncDecl)
-		if !ok || fd.Name.Name != "StartWithHeight" || fd.Body == nil {
-			continue
-		}
-		found = true
-		ast.Inspect(fd.Body, func(n ast.Node) bool {
+	var collect func(body ast.Node, depth int)
+	collect = func(body ast.Node, depth int) {
+		ast.Inspect(body, func(n ast.Node) bool {
 			c, ok := n.(*ast.CallExpr)
 			if !ok {
 				return true
@@ -56,11 +60,28 @@ func nodeStartSequence() (string, error) {
 				}
 			}
 			walk(se)
+			if len(parts) == 2 && parts[0] == "node" && depth < 4 {
+				if m, ok := methods[parts[1]]; ok {
+					for _, a := range c.Args {
+						collect(a, depth)
+					}
+					collect(m.Body, depth+1)
+					return false
+				}
+			}
 			if len(parts) >= 2 && parts[0] == "node" && parts[1] != "log" && parts[1] != "config" {
 				calls = append(calls, strings.Join(parts[1:], "."))
 			}
 			return true
 		})
+	}
+	for _, d := range f.Decls {
+		fd, ok := d.(*ast.FuncDecl)
+		if !ok || fd.Name.Name != "StartWithHeight" || fd.Body == nil {
+			continue
+		}
+		found = true
+		collect(fd.Body, 0)
 	}
 	if !found {
 		return "", fmt.Errorf("StartWithHeight not found in node/node.go")
